@@ -444,10 +444,16 @@ def parse_assumptions(out):
 
 def locate_failure(text, err):
     """Name of the Theorem/Lemma enclosing the error position reported by coqc."""
-    m = re.search(r'line (\d+), characters', err)
-    if not m:
+    # the position that belongs to the Error (warnings from imported libraries also
+    # print a File/line header; take the last header before the first "Error")
+    cut = err.find("Error")
+    head = err if cut < 0 else err[:cut]
+    ms = re.findall(r'line (\d+), characters', head)
+    if not ms:
+        ms = re.findall(r'line (\d+), characters', err)
+    if not ms:
         return None
-    ln = int(m.group(1))
+    ln = int(ms[-1])
     name = None
     for i, line in enumerate(text.splitlines(), 1):
         mm = re.match(r"\s*(Theorem|Lemma|Example|Corollary|Fact|Definition|Goal)\s+"
